@@ -64,6 +64,15 @@ def generate(rng, index, tier):
     scn['filter_tid'] = threads[0]['tid'] if threads and rng.chance(0.2) else None
     scn['cli'] = index % 12 == 0
     scn['reader'] = 'raw' if index % 5 == 2 else 'bytesio'
+    if index % 157 == 3:
+        scn['bulk_records'] = worlds.dict_size(rng, 70000) or 3000      # as many records as a count the source names (+-1)
+        scn['cuts'] = 'sample'
+        scn['cli'] = False
+    if rng.chance(0.15) and threads:
+        # record arguments that look like a chunk header: the event tag, a small size, eight zero bytes
+        th = rng.pick(threads)
+        th['ops'].insert(rng.randrange(len(th['ops']) + 1), {'k': 'raw', 'id': 0x40c0010, 'q': 0, 'a': [0x1e00, 64 * rng.randint(1, 3), 0, rng.word()]})
+        th['ops'].insert(rng.randrange(len(th['ops']) + 1), {'k': 'raw', 'id': 0x40c0010, 'q': 0, 'a': [rng.word(), 0x1e00, 64, 0]})
     return scn
 
 
@@ -126,6 +135,14 @@ def _region(layout, k):
 
 
 def _pick_cuts(scn, layout, n):
+    if scn.get('bulk_records'):
+        recs = [s_ for nm, s_, e_ in layout if nm == 'record']
+        picks = set([0, n, n - 1, n - 30, n - 64, n - 65])
+        for k in (1, 2, 3, 5, 7):
+            if recs:
+                base = recs[(len(recs) * k) // 8]
+                picks.update((base, base + 1, base + 33, base + 63))
+        return sorted(c for c in picks if 0 <= c <= n)
     if scn['cuts'] == 'all':
         if n <= 8000:
             return list(range(0, n + 1))
@@ -167,6 +184,10 @@ def execute(scn):
     if fired:
         bump('probe:dump_with_orphan_ends')
     rb = [kernel.to_bytes(r) for r in stream]
+    if scn.get('bulk_records'):
+        import struct
+        rb = rb + [struct.pack('<Q32sQIIQ', 0x20000001 + 2 * i, bytes([1 + i % 251]) * 32, 101 + i % 3, 0x40c0004 | (1 + i % 2), 0, 0) for i in range(scn['bulk_records'])]
+        bump('bulk_dump')
     data, layout = worlds.build_file(scn['writer'], rb)
     n = len(data)
     ver = scn['writer']['version']
